@@ -34,7 +34,7 @@ def configs():
             for rx in range(4):
                 layouts = ["two_proc"] + (["one_proc"] if tx == 0 and rx == 0 else [])
                 for layout in layouts:
-                    cons = ["sync", "receive", "async_with"] if api == "flag" else ["sync", "mb_receive"]
+                    cons = ["sync", "sync_uc", "receive", "async_with"] if api == "flag" else ["sync", "sync_uc", "mb_receive"]
                     if layout == "one_proc":
                         cons = ["sync"]
                     for c in cons:
@@ -120,6 +120,16 @@ def render_src(cfg):
         c = cfg["consumer"]
         if c == "sync":
             L += ["        @cctx", "        def consumer():"] + ["            " + l for l in cons_sync]
+        elif c == "sync_uc":
+            # the consumer clears in every step in which it is willing, also when it sees no event (clearing a flag that
+            # is seen as clear has no effect: an event still on its way through the tx delay must not be lost)
+            L += ["        @cctx", "        def consumer():"] + ["            " + l for l in [
+                "if self.c_take:",
+                f"    if {is_set}:",
+                "        self.got ^= True",
+                f"        self.got_data <<= {rd}",
+                f"    {clear}",
+            ]]
         elif c == "receive":
             L += ["        @cctx", "        async def consumer():", "            await self.c_take", "            await flag.receive()", "            self.got ^= True", f"            self.got_data <<= {rd}"]
         elif c == "async_with":
@@ -364,6 +374,7 @@ ASSUMPTIONS = [
     "VSIM stands in for a VHDL simulator; one clock drives both contexts (the property is stated per step of one clock)",
     "effective set = attempt while the producer's own is_clear() view is true (exactly the wording of the statement); the wrapper reports that view",
     "a stalled context (step condition false) does not step; pulses of a stalled context are not counted",
+    "consumer style sync_uc clears in every willing step, also when it sees no event: clearing a flag seen as clear has no effect (an event still in the tx delay line must arrive)",
     "after a reset an outstanding event may be dropped (the model forgets it); nothing may be delivered that was not set after the reset",
     "bounded progress: with both sides willing and no fault, the next event happens within 2*(tx+rx)+8 clocks",
 ]
